@@ -184,7 +184,9 @@ def wincr := wincrWith true
 
 /-- a call of a function decorated with `@cache(ttl, key=..., tags=...)` whose body returns `v`:
 `cached = await backend.get(key, default=_empty)`; hit -> return it; miss -> run the body,
-`await backend.set(key, result, expire=ttl, tags=tags)`.  The two outcomes are told apart in the output:
+`await backend.set(key, result, expire=ttl, tags=tags)`.  `k` and `tags` are the key and the tags rendered from the
+call's arguments *before* the body runs (`_tags = [...]; _cache_key = ...` are the first two lines of `_wrap`;
+template level: `TagTpl.decorMiss`), so a body that mutates its arguments cannot change them.  The two outcomes are told apart in the output:
 `.val (some c)` = served from the cache, `.vals [some v]` = the body ran and its result was stored. -/
 def wcall (cfg : Cfg) (s : St) (k : Nat) (v : Val) (ttl : Option Nat) (tags : List Nat) : St × Out :=
   let r := s.touch cfg k
@@ -196,7 +198,11 @@ def wcall (cfg : Cfg) (s : St) (k : Nat) (v : Val) (ttl : Option Nat) (tags : Li
 def delKey (cfg : Cfg) (s : St) (k : Nat) : St := ((s.rawDelete cfg k).1).noteDelete k
 
 /-- `delete_match(pattern)`: `async for key in self.scan(pattern): await self._delete(key)`; `scan`
-skips entries that are expired.  `ks` = the keys that match the pattern (C13's business). -/
+skips entries that are expired.  `ks` = the keys that match the pattern (C13's business): several keys for a
+glob, exactly the key of that name for a pattern without `*`, none for a pattern nothing matches.  The memory
+backend has no shortcut for wildcard-free patterns: every removed key goes through `_delete`, so its on-remove
+callbacks fire (membership in its tag sets is pruned) and it counts as explicitly deleted
+(`Lemmas/TagsMatch.lean`: `delMatch_kv_since`, `delMatch_pruned`). -/
 def delMatch (cfg : Cfg) (s : St) (ks : List Nat) : St :=
   ks.foldl (fun s k => if (liveAt s.now s.kv k).isSome then s.delKey cfg k else s) s
 
